@@ -182,20 +182,24 @@ func (fx *FnExec) frameEnv(st *State, fr *frame) *evalEnv {
 			}
 		}
 		for name, vs := range cands {
-			if len(vs) != 1 {
-				continue
-			}
 			if _, dup := env.vars[name]; dup {
 				continue
 			}
+			// the definitions of this name that were executed on this path
+			var live []ssa.Value
 			for v := range vs {
 				if _, isConst := v.(*ssa.Const); isConst {
 					continue
 				}
-				if t, ok := st.vals[v]; ok {
-					env.vars[name] = cval{t: t, typ: v.Type(), sort: fx.sortOf(v.Type()), lv: st.lvs[v]}
+				if _, ok := st.vals[v]; ok {
+					live = append(live, v)
 				}
 			}
+			if len(live) != 1 {
+				continue
+			}
+			v := live[0]
+			env.vars[name] = cval{t: st.vals[v], typ: v.Type(), sort: fx.sortOf(v.Type()), lv: st.lvs[v]}
 		}
 	}
 	for _, fv := range fr.fn.FreeVars {
@@ -302,6 +306,17 @@ func (fx *FnExec) loopEnter(st *State, fr *frame, h *loopHdr, b, pred *ssa.Basic
 		st.heapSet(name, mi.sort, nv)
 		if mi.freshOnly && arrayIndexSort(mi.sort) == "Int" {
 			st.assume(fmt.Sprintf("(forall ((q.r Int)) (! (=> (<= q.r %s) (= (select %s q.r) (select %s q.r))) :pattern ((select %s q.r))))", allocAtEntry, nv, old, nv))
+		} else if fal := fx.topFrameAllowed(st); fal != nil {
+			// automatic loop invariant: the function's frame. What held before
+			// the loop is assumed for the havocked value and re-checked on
+			// every back edge (loopBack).
+			if pre, ok := fx.frameFormula(st, name, old, fal, st.entryHeap, fx.entryAlloc); ok {
+				fx.emit(st, fr, "frame-establish", fmt.Sprintf("loop%d/%s", h.ord, name), pre, nil, "")
+			}
+			if post, ok := fx.frameFormula(st, name, nv, fal, st.entryHeap, fx.entryAlloc); ok {
+				st.assume(post)
+				st.loopFrames = append(append([]string(nil), st.loopFrames...), fmt.Sprintf("%d|%s", h.ord, name))
+			}
 		}
 	}
 	na := fx.freshConst("alloc@loop", "Int")
@@ -390,6 +405,18 @@ func (st *State) decr() map[string]Term {
 
 func (fx *FnExec) loopBack(st *State, fr *frame, h *loopHdr, b, pred *ssa.BasicBlock) {
 	fx.evalPhis(st, b, pred)
+	if fal := fx.topFrameAllowed(st); fal != nil {
+		for _, lf := range st.loopFrames {
+			parts := strings.SplitN(lf, "|", 2)
+			if parts[0] != fmt.Sprint(h.ord) {
+				continue
+			}
+			name := parts[1]
+			if f, ok := fx.frameFormula(st, name, st.heap[name], fal, st.entryHeap, fx.entryAlloc); ok {
+				fx.emit(st, fr, "frame-preserve", fmt.Sprintf("loop%d/%s", h.ord, name), f, nil, "")
+			}
+		}
+	}
 	spec := fx.loopSpec(fr, h)
 	if spec != nil {
 		env := fx.loopEnv(st, fr, h)
@@ -553,8 +580,12 @@ func (fx *FnExec) loopMods(st *State, fr *frame, h *loopHdr) map[string]modInfo 
 	// pass 1: names only
 	p1 := fx.loopModsPass(nil, fr, h, nil)
 	names := map[string]bool{}
-	for k := range p1 {
-		names[k] = true
+	for k, mi := range p1 {
+		// a variable written only at objects allocated inside the loop is
+		// unchanged for everything that existed before
+		if !mi.freshOnly {
+			names[k] = true
+		}
 	}
 	res := fx.loopModsPass(st, fr, h, names)
 	if os.Getenv("GVC_DEBUG_MODS") != "" {
@@ -644,7 +675,7 @@ func (ms *modScan) storeTarget(fn *ssa.Function, addr ssa.Value) {
 		case *types.Pointer:
 			et = u.Elem().Underlying().(*types.Array).Elem()
 		}
-		es := fx.sortOf(et)
+		es := fx.elemSort(et)
 		ms.add("Mem."+sanitize(es), "(Array Int "+arrOf(es)+")", fresh)
 	case *ssa.Global:
 		// globals are immutable by census
@@ -715,14 +746,14 @@ func (ms *modScan) scanInstr(fn *ssa.Function, ins ssa.Instruction, top bool) {
 				}
 			}
 		case *types.Array:
-			es := fx.sortOf(u.Elem())
+			es := fx.elemSort(u.Elem())
 			ms.add("Mem."+sanitize(es), "(Array Int "+arrOf(es)+")", true)
 		default:
 			srt := fx.sortOf(et)
 			ms.add("Cell."+sanitize(srt), arrOf(srt), true)
 		}
 	case *ssa.MakeSlice:
-		es := fx.sortOf(x.Type().Underlying().(*types.Slice).Elem())
+		es := fx.elemSort(x.Type().Underlying().(*types.Slice).Elem())
 		ms.add("Mem."+sanitize(es), "(Array Int "+arrOf(es)+")", true)
 	case *ssa.MakeMap:
 		ms.mapMod(x.Type().Underlying().(*types.Map), true)
@@ -767,10 +798,10 @@ func (ms *modScan) scanCall(fn *ssa.Function, cc *ssa.CallCommon, site ssa.Instr
 	if b, ok := cc.Value.(*ssa.Builtin); ok {
 		switch b.Name() {
 		case "append":
-			es := fx.sortOf(cc.Args[0].Type().Underlying().(*types.Slice).Elem())
+			es := fx.elemSort(cc.Args[0].Type().Underlying().(*types.Slice).Elem())
 			ms.add("Mem."+sanitize(es), "(Array Int "+arrOf(es)+")", true)
 		case "copy":
-			es := fx.sortOf(cc.Args[0].Type().Underlying().(*types.Slice).Elem())
+			es := fx.elemSort(cc.Args[0].Type().Underlying().(*types.Slice).Elem())
 			ms.add("Mem."+sanitize(es), "(Array Int "+arrOf(es)+")", false)
 		case "delete":
 			pt, _ := ms.invariantVal(fn, cc.Args[0])
@@ -836,7 +867,7 @@ func (ms *modScan) havocArgMods(a ssa.Value) {
 		}
 		ms.storeTarget(nil, a)
 	case *types.Slice:
-		es := fx.sortOf(u.Elem())
+		es := fx.elemSort(u.Elem())
 		ms.add("Mem."+sanitize(es), "(Array Int "+arrOf(es)+")", false)
 	}
 }
@@ -888,6 +919,28 @@ func (ms *modScan) contractModsAt(fn *ssa.Function, cc *ssa.CallCommon, tgt call
 				}
 			}
 		}
+	}
+	if mc, isMC := cc.Value.(*ssa.MakeClosure); isMC && tgt.closure == nil {
+		// closure created inside the loop: its captured values
+		ci := &closureInfo{fn: mc.Fn.(*ssa.Function)}
+		for _, b := range mc.Bindings {
+			t, inv := ms.invariantVal(fn, b)
+			if !inv {
+				t = "!poison"
+			}
+			ci.bindings = append(ci.bindings, t)
+			var blv *LValue
+			if inv {
+				if l, has := tmp.lvs[b]; has {
+					blv = l
+				}
+			}
+			ci.bindLVs = append(ci.bindLVs, blv)
+			ci.bindVals = append(ci.bindVals, b)
+		}
+		tgt.closure = ci
+		tgt.fn = ci.fn
+		tmp.vals[mc] = "0"
 	}
 	args := ms.fx.evalArgs(tmp, cc)
 	var sig *types.Signature
@@ -1126,7 +1179,7 @@ func (fx *FnExec) staticModTargetsTyped(m Expr, vars map[string]types.Type, pkg 
 			es := "Int"
 			if st0 != nil {
 				if sl, ok := st0.Underlying().(*types.Slice); ok {
-					es = fx.sortOf(sl.Elem())
+					es = fx.elemSort(sl.Elem())
 				}
 			}
 			return []heapVarRef{{"Mem." + sanitize(es), "(Array Int " + arrOf(es) + ")"}}
@@ -1231,3 +1284,34 @@ func (fx *FnExec) staticType(e Expr, vars map[string]types.Type, pkg *types.Pack
 }
 
 var _ = strings.Contains
+
+
+// topFrameAllowed: the modifies set of the function under verification,
+// evaluated at its entry (nil when there is no contract to frame against).
+func (fx *FnExec) topFrameAllowed(st *State) map[string]*frameAllow {
+	if fx.fc == nil || fx.fn == nil {
+		return nil
+	}
+	if fx.topAllowed != nil {
+		return fx.topAllowed
+	}
+	top := &frame{fn: fx.fn, fc: fx.fc}
+	// parameters at their entry values
+	tmp := st.clone()
+	for _, p := range fx.fn.Params {
+		tmp.vals[p] = "p." + sanitize(p.Name())
+	}
+	for _, fv := range fx.fn.FreeVars {
+		tmp.vals[fv] = "fv." + sanitize(fv.Name())
+	}
+	env := fx.frameEnv(tmp, top)
+	func() {
+		defer func() {
+			if r := recover(); r != nil {
+				fx.topAllowed = nil
+			}
+		}()
+		fx.topAllowed = fx.frameAllowed(env, fx.fc.Modifies, st.entryHeap)
+	}()
+	return fx.topAllowed
+}
